@@ -9,6 +9,7 @@ batch and scale; and for K + D that closure / operator / log-determinant of the 
 """
 import contextlib
 import copy
+import json
 import warnings
 
 import torch
@@ -97,7 +98,8 @@ def _replay(group):
                         continue
                     rs = sorted({c["r"] for c in group})
                     if r not in rs:
-                        fails.append((label, "returned %d columns; the specification's loop ends after %s step(s) (rank bound %d, tolerance %g)" % (r, rs, k, tol)))
+                        fails.append((label, "returned %d columns; the loop may leave after %d step(s) at the earliest and at most %d (rank bound %d, tolerance %g)"
+                                      % (r, min(c["stopat"] for c in group), max(rs), k, tol)))
                     else:
                         fails.append((label, "pivot order %s is not a greedy order of the residual diagonal (admissible: %s)"
                                       % (P[:, :r].tolist(), [[m["piv"] for m in c["members"]] for c in group][:4])))
@@ -205,9 +207,9 @@ def run(tier, seed):
             sig = "%s|%s|%s|%s" % (PROP, label.split("[")[0] + ("[%s]" % d["dmode"] if d["dmode"] != "none" else ""), d["inst"], kind)
             res.violation(sig, "%s %s batch=%s rank bound=%d tol=%s scale=1/%d: %s: %s" % (d["inst"], g[0]["path"], d["b"], d["k"], d["tolname"], d["sden"], label, msg),
                           dict(group=g))
-    res.notes["behaviours_with_tie_branches"] = sum(len(g) > 1 for g in gl)
+    res.notes["behaviours_with_tie_branches"] = sum(len({json.dumps([m["piv"][:g[0]["stopat"]] for m in c["members"]]) for c in g}) > 1 for g in gl)
     res.notes["terminal_states"] = len(r["out"])
-    res.samples = [dict(desc=g[0]["desc"], r=g[0]["r"], pivots=[m["piv"] for m in g[0]["members"]]) for g in gl[:3]]
+    res.samples = [dict(desc=g[0]["desc"], earliest_stop=g[0]["stopat"], r=g[0]["r"], pivots=[m["piv"] for m in g[0]["members"]]) for g in gl[:3]]
     res.rule = ("18 instance families (full / low rank, tied diagonals, batches with different pivots and ranks, operator classes whose rows come from "
                 "indexing) x rank bound 1..n+1 x tolerance {default, loose, tight} x scale {1, 1/100} x D in {none, constant, per element, batched}; all "
                 "tie-breaking behaviours explored by TLC; library results accepted only as one of them")
